@@ -5,7 +5,7 @@ use crate::util::*;
 pub struct Program { pub number: u16, pub pmt_pid: u16, pub pcr_pid: u16, pub streams: Vec<(u8, u16)> }
 pub struct Truth {
     /// per elementary PID: the PES packets multiplexed, in order: (stream_id, payload bytes)
-    pub pes: Vec<(u16, Vec<(u8, Vec<u8>)>)>,
+    pub pes: Vec<(u16, Vec<(u8, Option<u64>, Option<u64>, Vec<u8>)>)>,
 }
 
 pub fn pick_pids(rng: &mut Rng, n: usize) -> Vec<u16> {
@@ -64,7 +64,7 @@ pub fn valid_stream(rng: &mut Rng, nprog: usize, pes_per_stream: usize, repeats:
             let style = rng.below(4);
             let first = (hl + rng.below(60) as usize).min(184);
             q.unit(*pid, &bytes, style, if style == 3 { first.max(hl) } else { hl }, rng);
-            list.push((sid, payload));
+            list.push((sid, if headerless(sid) { None } else { spec.pts }, if headerless(sid) { None } else { spec.dts }, payload));
         }
         truth.pes.push((*pid, list));
         queues.push((*pid, q.pkts));
